@@ -48,6 +48,8 @@ type appState struct {
 	hw  *hwire
 	// keccak(denom) hex -> denom, for canonicalising CCTP events
 	denomByHash map[string]string
+	// escrow address hex -> symbolic address hex ("escrow:<port>/<channel>"): the model has no SHA-256
+	escrowSym map[string]string
 	// denoms ever seen as "ibc/HASH" are printed through their trace
 }
 
@@ -70,12 +72,31 @@ func (d *driver) setup(f []string) string {
 	if err != nil {
 		return "err:boot:" + hx(err.Error())
 	}
-	d.st = &appState{env: env, denomByHash: map[string]string{}}
+	d.st = &appState{env: env, denomByHash: map[string]string{}, escrowSym: map[string]string{}}
+	for _, ch := range cfg.Channels {
+		d.st.noteEscrow("transfer", ch)
+	}
 	return "ok"
 }
 
 func (s *appState) close() {
 	s.env.Close()
+}
+
+func (s *appState) noteEscrow(port, channel string) {
+	if s.escrowSym == nil {
+		s.escrowSym = map[string]string{}
+	}
+	a := transfertypes.GetEscrowAddress(port, channel)
+	s.escrowSym[hex.EncodeToString(a)] = hex.EncodeToString([]byte("escrow:" + port + "/" + channel))
+}
+
+func (s *appState) canonAddr(a []byte) string {
+	h := hex.EncodeToString(a)
+	if sym, ok := s.escrowSym[h]; ok {
+		return sym
+	}
+	return h
 }
 
 type snapshot struct {
@@ -98,7 +119,7 @@ func (s *appState) canonDenom(ctx sdk.Context, denom string) string {
 func (s *appState) snap(ctx sdk.Context) snapshot {
 	sn := snapshot{bal: map[string]sdkmath.Int{}, sup: map[string]sdkmath.Int{}}
 	s.env.App.BankKeeper.IterateAllBalances(ctx, func(addr sdk.AccAddress, c sdk.Coin) bool {
-		sn.bal[hex.EncodeToString(addr)+"/"+hx(s.canonDenom(ctx, c.Denom))] = c.Amount
+		sn.bal[s.canonAddr(addr)+"/"+hx(s.canonDenom(ctx, c.Denom))] = c.Amount
 		return false
 	})
 	s.env.App.BankKeeper.IterateTotalSupply(ctx, func(c sdk.Coin) bool {
@@ -286,6 +307,7 @@ func (s *appState) mkPacket(f []string) (channeltypes.Packet, bool) {
 		return channeltypes.Packet{}, false
 	}
 	s.seq++
+	s.noteEscrow(mustUnhx(f[2]), mustUnhx(f[3]))
 	return channeltypes.NewPacket([]byte(mustUnhx(f[4])), s.seq, mustUnhx(f[0]), mustUnhx(f[1]), mustUnhx(f[2]), mustUnhx(f[3]),
 		clienttypes.NewHeight(1, 1000000), 0), true
 }
@@ -503,14 +525,17 @@ func (s *appState) runMsg(d *driver, m sdk.Msg) (res string, evs sdk.Events, err
 				d.lastPanic = fmt.Sprintf("%v\n%s", r, debug.Stack())
 			}
 		}()
-		_, err := h(cacheCtx, m)
+		r, err := h(cacheCtx, m)
 		if err != nil {
 			res = "err"
 			errTxt = err.Error()
 			return
 		}
 		res = "ok"
-		evs = cacheCtx.EventManager().Events()
+		// the router runs the handler under its own event manager and returns the events in the result
+		for _, e := range r.GetEvents() {
+			evs = append(evs, sdk.Event(e))
+		}
 		write()
 	}()
 	return res, evs, errTxt
